@@ -17,6 +17,7 @@ import OpyVerif.Generated.SkeletonsDefs
 import OpyVerif.Generated.GuardsDefs
 import OpyVerif.Generated.FormulasDefs
 import OpyVerif.Generated.BudgetDefs
+import OpyVerif.Generated.WalksDefs
 import OpyVerif.Generated.ClipLoopsDefs
 /-
 Line-protocol driver: runs the *executable model definitions* on inputs sent by the Python
@@ -230,6 +231,13 @@ def step (d : DState) (line : String) : DState × String :=
     | _, _ => (d, "bad-op")
   | ["b", name, xs] => match benchByName name, parseFloats xs with
     | some f, some xs => (d, showF (f xs)) | _, _ => (d, "bad-op")
+  -- the traversal programs translated from the current source, run by the interpreter of Model/NodeWalk
+  | ["w.pre", t] => match parseTree t with
+    | some t => (d, showNats ((runWalk Opy.Gen.preOrderInit Opy.Gen.preOrderLoop (t.size + 2) t).filterMap PNode.id?))
+    | none => (d, "bad-op")
+  | ["w.post", t] => match parseTree t with
+    | some t => (d, showNats ((runPost Opy.Gen.postOrderLoop (t.cost + 3) t).filterMap PNode.id?))
+    | none => (d, "bad-op")
   -- per-iteration evaluation budget computed from the call sites translated from the current source
   | ["budget", kind, n] => match Opy.Gen.evalTerms.lookup kind, n.toNat? with
     | some row, some n => (d, match iterationBudget n row with | some b => toString b | none => "none")
